@@ -106,6 +106,12 @@ func c12Run(c *Ctx) {
 		c12Judge(c, cs)
 	}
 	for _, src := range []string{
+		// a store through any expression that yields the object reaches the object: an element of an array literal,
+		// the operand a logical operator hands back, a call result, a parenthesised place
+		Lines(Var("left", "{hits: 0}"), Var("right", "{hits: 0}"), Var("side", "1"), "[left, right][side].hits = 5;", "[left, right][0].hits = [left, right][1].hits + 1;", Print("left"), Print("right"), Var("prefs", "nil"), Var("defaults", `{mode: "dev"}`), `(prefs `+K["or"]+` defaults).mode = "prod";`, Print("defaults"),
+			Var("cfg", "{a: {n: 1}}"), "(cfg.a).n = 2;", "(cfg).b = 3;", Print("cfg"), Fun("get", "", " "+Ret("cfg")+" "), "get().a.n = 4;", "get().c = [1];", "get().c[0] = 9;", Print("cfg"), "(defaults && cfg).z = 1;", Print(BI("keys", "cfg"))),
+		// a declaration list: a later initialiser sees (and aliases) the object an earlier name of the list holds
+		Lines(K["var"]+" list = {head: {v: 1, next: nil}, size: 1}, cur = list.head;", "cur.v = 5;", Print("list"), K["var"]+" base = {k: 1}, view = base, n = 2;", "view.k = n;", Print("base"), Var("row", "{t: 0}"), Fun("mk", "", " "+K["var"]+" row = {t: 1}, al = row; al.t = 7; "+Ret("row")+" "), Print("mk()"), Print("row")),
 		// a lookup helper's "not found" exit yields nil, not the object an earlier call returned: writing through it is an error
 		Lines(Fun("mk", "n", " "+Ret("{name: n, hits: 0}")+" "), Var("rows", `[mk("a"), mk("b")]`), Fun("find", "w", " "+For(Var("i", "0"), "i < "+BI("len", "rows"), "i = i + 1", "{ "+If("rows[i].name == w", "{ "+Ret("rows[i]")+" }")+" }")+" "+Ret("")+" "), `find("a").hits = 1;`, Print("rows"), Var("miss", `find("zzz")`), Print("miss == nil"), Print("miss"), Print(`"before"`), `find("zzz").hits = 9;`, Print(`"AFTER"`), Print("rows")),
 		// literals are fresh per evaluation; two {} are different objects
